@@ -163,6 +163,7 @@ def run(ctx, run):
     _references(ctx, run)
     _page_sizes(ctx, run)
     _no_self_deadlock(ctx, run)
+    _countdowns(ctx, run)
     for k, (flds, iv, why) in ARG_ASSUME.items():
         if k in ctx.arg_assume_used:
             run.assumptions.append("argument `%s` of %s() at its call in %s() is in %s: %s" % (k[2], k[1], k[0], list(iv), why))
@@ -920,3 +921,27 @@ def _no_self_deadlock(ctx, run):
             run.violation("RF-LOCK", k, inst["detail"] + " - a handler that calls back into the decoder (vbi_fetch_cc_page), or the "
                           "next vbi_decode(), blocks forever", inst["loc"], witness=inst.get("witness"))
     run.floor("lock pairing / callback-without-lock instances", n, 5)
+
+
+# --------------------------------------------------------------------------------------
+# countdown guards inside loops must be absorbing (`<= 0`) unless the taken branch re-arms them
+
+def _countdowns(ctx, run):
+    from .. import countdown
+    n = 0
+    for f in ctx.prog.funcs:
+        if f.unit not in UNITS:
+            continue
+        bad, k = countdown.find(f)
+        n += k
+        if k:
+            run.touch(f)
+        for c, v, val in bad:
+            run.violation("RF-CMP", "RF-CMP:%s:%s" % (f.name, v), "`%s` guards a loop body with a countdown that keeps running: once `%s` "
+                          "has passed %d the test is false again and the body resumes - whatever the countdown was limiting (rows "
+                          "written, entries copied) is no longer bounded" % (ex.pretty(f, c), v, val), ex.loc(f, c),
+                          witness={"function": f.name, "counter": v})
+        if k and not bad:
+            run.holds("RF-CMP", "RF-CMP:%s" % f.name, "%d countdown guard(s) inside loops: each is absorbing (<=) or re-arms the counter" % k,
+                      "%s:%d" % (f.file, f.line))
+    run.floor("countdown guards inside loops", n, 2)
